@@ -74,6 +74,10 @@ class Tables:
         init = [c for c in kids(node) if c.get('kind') != 'TemplateArgument'][0]
         rn = _rows_node(init)
         if rn is None:
+            it = []
+            _items(init, it)
+            if not it:
+                return []      # default-constructed (empty) table
             raise Unsupported('no initialiser list in table %s<%s>' % (name, ', '.join(args)))
         rows = []
         elems = list(kids(rn))
@@ -84,6 +88,15 @@ class Tables:
                 raise Unsupported('table %s<%s>: row with %d items' % (name, ', '.join(args), len(it)))
             rows.append((it[0], it[1]))
         return rows
+
+    def key_value_types(self, name, args):
+        """IR types of key and mapped value, from the declared std::map / unordered_map type."""
+        from .lower import split_targs
+        node = self.vars[(name, tuple(args))]
+        t = node['type'].get('desugaredQualType') or node['type']['qualType']
+        inner = t[t.index('<') + 1: t.rindex('>')]
+        parts = split_targs(inner)
+        return self.low.ptype(parts[0]), self.low.ptype(parts[1])
 
     def enum_rows(self, name, args):
         """rows with enum constants resolved to (enum qualname, enumerator name, value)."""
